@@ -309,6 +309,58 @@ fn member_descriptions() -> Vec<(String, Box<dyn Fn(usize) -> Frag + Sync + Send
             }
         }
     }
+    // every attribute set of a state variable in every order: {constant | immutable | -} x {override | override(I) | -}
+    // x visibility, all permutations of the attributes present
+    for vis in ["public", "private", "internal", ""] {
+        for mutk in ["constant", "immutable", ""] {
+            for ov in ["override", "override(I)"] {
+                for und in [false, true] {
+                    let mut attrs: Vec<Vec<&'static str>> = Vec::new();
+                    if !vis.is_empty() {
+                        attrs.push(vec![vis]);
+                    }
+                    if !mutk.is_empty() {
+                        attrs.push(vec![mutk]);
+                    }
+                    attrs.push(if ov == "override" { vec!["override"] } else { vec!["override", "(", "IBase", ")"] });
+                    for perm in crate::report::permutations(attrs.len()) {
+                        let order: Vec<&'static str> = perm.iter().flat_map(|&k| attrs[k].clone()).collect();
+                        let order2 = order.clone();
+                        v.push((
+                            format!("var-attrs:{}:{}", order.join("+"), und),
+                            Box::new(move |i| {
+                                let mut p = vec![C(ty("uint256"))];
+                                for t in &order2 {
+                                    p.push(T(t));
+                                }
+                                p.push(crate::synth::P::S(format!("{}w{}", if und { "_" } else { "" }, i)));
+                                if mutk == "constant" {
+                                    p.push(T("="));
+                                    p.push(C(num("1")));
+                                }
+                                p.push(T(";"));
+                                node("VariableDefinition", p)
+                            }),
+                        ));
+                    }
+                }
+            }
+        }
+    }
+    // names: the rules speak of a leading underscore only; letter case, digits, inner / trailing / double underscores,
+    // `$` and a bare `_` are all just names
+    for name in ["V", "_V", "MAX_FEE", "_MAX_FEE", "WETH", "__v", "v_", "_", "$v", "_1", "mixedCase", "_mixedCase", "Ünï", "_ünï"] {
+        for vis in ["", "public", "private", "internal"] {
+            for mutk in ["", "constant", "immutable"] {
+                for tyn in ["uint256", "address"] {
+                    v.push((format!("var-name:{}:{}:{}:{}", name, tyn, vis, mutk), Box::new(move |_| var_member(tyn, vis, mutk, name.to_string()))));
+                }
+            }
+        }
+        for vis in ["", "public", "external", "internal", "private"] {
+            v.push((format!("fn-name:{}:{}", name, vis), Box::new(move |_| func_member("function", vis, "", true, name.to_string()))));
+        }
+    }
     for vis in ["", "public", "internal"] {
         for mutab in ["", "payable"] {
             v.push((format!("ctor:{}:{}", vis, mutab), Box::new(move |_| func_member("constructor", vis, mutab, true, String::new()))));
@@ -1061,6 +1113,11 @@ pub fn c08(tier: Tier) -> i32 {
         v.push(("none".into(), var("unrelated")));
         v.push(("read".into(), bin("Assign", "=", 14, 13, 14, var("q"), subscript(var("p"), num("0")))));
         v.push(("w.other".into(), bin("Assign", "=", 14, 13, 14, var("q"), var("p"))));
+        // the parameter is only READ inside the index / key of another variable's assignment target
+        v.push(("idx.key".into(), bin("Assign", "=", 14, 13, 14, subscript(var("q"), var("p")), num("1"))));
+        v.push(("idx.call".into(), bin("Assign", "=", 14, 13, 14, subscript(var("q"), call(var("keccak256"), vec![var("p")])), num("1"))));
+        v.push(("idx.nested".into(), bin("AssignAdd", "+=", 14, 13, 14, subscript(var("q"), subscript(var("p"), num("0"))), num("1"))));
+        v.push(("idx.member".into(), bin("Assign", "=", 14, 13, 14, member(subscript(var("q"), member(var("p"), "length")), "x"), num("1"))));
         v
     };
     let salts = stmt_alts();
@@ -1216,6 +1273,9 @@ pub fn c09(tier: Tier) -> i32 {
         ("attached-contract", format!("contract C {{ using SafeMath for uint256 ; function f ( ) public {{ {} }} }}", body)),
         ("attached-file", format!("using SafeMath for uint256 ; contract C {{ function f ( ) public {{ {} }} }}", body)),
         ("not-attached", format!("contract C {{ using Other for uint256 ; function f ( ) public {{ {} }} }}", body)),
+        // other spellings of "attaches a library called SafeMath": through a qualified path, for every type
+        ("attached-qualified", format!("import \"./math/SafeMath.sol\" as Math ; contract C {{ using Math . SafeMath for uint256 ; function f ( ) public {{ {} }} }}", body)),
+        ("attached-star-file", format!("using SafeMath for * ; library SafeMath {{ }} contract C {{ function f ( ) public {{ {} }} }}", body)),
     ];
     let placements = ["none", "experimental-before", "abicoder-before", "both-before", "after", "solidity-last"];
     let mut items: Vec<(String, String, Vec<usize>)> = Vec::new();
